@@ -73,11 +73,11 @@ static pid_t process_fork(const int *except, size_t num_except)
   ENS("C04+C06/process_fork.success_is_live_child", IMPLIES(!g.in_child && RV > 0, RV == g.child_pid && g.child_live && !g.child_reaped && g.reaps == OLD(g.reaps) && g.fork_stage == 2 && (g.child_fate == FATE_EXECED || g.child_fate == FATE_FAILED_LATE) && g.child_fate_errno > 0 && WST_LEGAL(g.child_wstatus)))
   ENS("C04+C05/process_fork.failure_leaves_no_child", IMPLIES(!g.in_child && RV < 0, !g.child_live && (g.child_pid == 0 || g.child_reaped)))
   ENS("C04/process_fork.failure_is_real_cause", IMPLIES(!g.in_child && RV < 0 && OLD(g.faults) == 0, (g.faults > 0 && RV == -g.first_errno) || (g.child_fate == FATE_FAILED_EARLY && RV == -g.child_fate_errno)))
-  ENS("C04/process_fork.side_of_fork", IMPLIES(g.in_child, gc.cfg_child_side) && IMPLIES(RV > 0, !gc.cfg_child_side) && g.dup_ptr == OLD(g.dup_ptr) && g.dup_src == OLD(g.dup_src) && g.prep_ptr == OLD(g.prep_ptr) && g.prep_src == OLD(g.prep_src) && g.execd == OLD(g.execd))
+  ENS("C04/process_fork.side_of_fork", IMPLIES(g.in_child, gc.cfg_child_side) && IMPLIES(RV > 0, !gc.cfg_child_side) && g.dup_ptr == OLD(g.dup_ptr) && g.dup_src == OLD(g.dup_src) && g.prep_ptr == OLD(g.prep_ptr) && g.prep_src == OLD(g.prep_src) && g.execd == OLD(g.execd) && g.env_ptr == OLD(g.env_ptr) && g.env_a == OLD(g.env_a) && g.env_b == OLD(g.env_b) && g.last_freed_vec == OLD(g.last_freed_vec) && g.cwd_id == OLD(g.cwd_id))
   ENS("C10/process_fork.excepted_descriptors_keep_their_objects", OBJ_KEPT(except[0]) && OBJ_KEPT(except[1]) && OBJ_KEPT(except[2]) && OBJ_KEPT(except[3]) && OBJ_KEPT(except[4]) && OBJ_KEPT(except[5]) && (g.rd & EXCEPT6_MASK(except)) == (OLD(g.rd) & EXCEPT6_MASK(except)) && (g.wr & EXCEPT6_MASK(except)) == (OLD(g.wr) & EXCEPT6_MASK(except)))
   ENS("C06/process_fork.parent_sends_no_signal", g.nsig == OLD(g.nsig) && g.kill_calls == OLD(g.kill_calls))
   ENS("C12/process_fork.child_clean_signal_state", IMPLIES(g.in_child, RV == 0 && g.sigmask == 0 && DISP_ALL_DEFAULT))
-  ENS("C11/process_fork.child_keeps_only_excepted_descriptors", IMPLIES(g.in_child, (g.open & SOFT_LIMIT_MASK & ~EXCEPT6_MASK(except)) == 0))
+  ENS("C11/process_fork.child_keeps_only_excepted_descriptors", IMPLIES(g.in_child, (g.open & SOFT_LIMIT_MASK & ~EXCEPT6_MASK(except)) == 0 && (g.open & ~OLD(g.open)) == 0))
   ENS("C10/process_fork.child_excepted_descriptors_untouched", IMPLIES(g.in_child, (g.open & EXCEPT6_MASK(except)) == (OLD(g.open) & EXCEPT6_MASK(except)) && (g.cloexec & EXCEPT6_MASK(except)) == (OLD(g.cloexec) & EXCEPT6_MASK(except))))
   ENS("C04/process_fork.child_reports_nothing_on_success", IMPLIES(g.in_child, g.child_reports == 0 && !g.exited))
   ;
